@@ -42,5 +42,6 @@ for name in names:
         "detected_by": results,
         "detected": any(r["exit"] == 1 and r["violation_lines"] for r in results),
     }
-    json.dump(meta, open(os.path.join(d, "meta.json"), "w"), indent=1)
+    if not os.environ.get("SEEDED_NO_WRITE"):
+        json.dump(meta, open(os.path.join(d, "meta.json"), "w"), indent=1)
     print(name, "detected" if meta["detected"] else "MISSED", [c for r in results for c in r["failing_clauses"]][:2], flush=True)
